@@ -2,6 +2,8 @@
 //! FixedShapeTensorField, VariableShapeTensorField}`: constructor, every setter, `Field::try_from(&helper)`,
 //! the `Serialize` form, and `serde_json::from_str` of the produced extension metadata as an independent
 //! JSON oracle.
+//! API coverage (notes/api_coverage.md): the arrow conversions of the helpers, `arrow Field::try_from(&helper)` and the
+//! owned `arrow Field::try_from(helper)`, read back as marrow fields (`field_arrow`, `field_arrow_owned`).
 use crate::outcome;
 use crate::rng::Rng;
 use crate::Ctx;
@@ -93,6 +95,24 @@ fn to_field(h: &H) -> Result<Field, serde_arrow::Error> {
         H::F(h) => Field::try_from(h),
         H::V(h) => Field::try_from(h),
     }
+}
+
+fn to_arrow_field(h: &H) -> Result<Field, serde_arrow::Error> {
+    let f = match h {
+        H::B(h) => arrow_schema::Field::try_from(h),
+        H::F(h) => arrow_schema::Field::try_from(h),
+        H::V(h) => arrow_schema::Field::try_from(h),
+    }?;
+    Ok(Field::try_from(&f)?)
+}
+
+fn to_arrow_field_owned(h: H) -> Result<Field, serde_arrow::Error> {
+    let f = match h {
+        H::B(h) => arrow_schema::Field::try_from(h),
+        H::F(h) => arrow_schema::Field::try_from(h),
+        H::V(h) => arrow_schema::Field::try_from(h),
+    }?;
+    Ok(Field::try_from(&f)?)
 }
 
 fn to_ser(h: &H) -> Result<Value, serde_json::Error> {
@@ -190,6 +210,18 @@ pub fn exec(input: &Value) -> Value {
                 json!({"ok": v, "back": back})
             }
         };
+    }
+    if let Some(h) = cur.as_ref() {
+        obj.insert("field_arrow".into(), match caught(|| to_arrow_field(h).map_err(|e| e.to_string())) {
+            Ok(f) => json!({ "ok": dump_field(&f) }),
+            Err(o) => o,
+        });
+    }
+    if let Some(h) = cur.take() {
+        obj.insert("field_arrow_owned".into(), match caught(move || to_arrow_field_owned(h).map_err(|e| e.to_string())) {
+            Ok(f) => json!({ "ok": dump_field(&f) }),
+            Err(o) => o,
+        });
     }
     obj.insert("field".into(), field_out);
     obj.insert("meta_oracle".into(), oracle);
